@@ -14,7 +14,7 @@ import (
 var IDs = map[string][]string{
 	"user":   {"a", "b", "c"},
 	"group":  {"1", "2", "3"},
-	"folder": {"1", "2"},
+	"folder": {"1", "2", "3"},
 	"doc":    {"1", "2", "3"},
 }
 
@@ -253,6 +253,22 @@ func GenModel(r *rand.Rand, opts GenOpts) (m *Model, rejected int) {
 				}
 			}
 		}
+		if opts.ForceShapes && len(condNames) > 0 && chance(r, 0.5) {
+			// recursive userset and recursive tuple-to-userset whose recursive edges carry a
+			// condition: the strategies (default / weight-two / recursive) walk them differently
+			if g := m.Rel("group", "member"); g != nil {
+				g.Rw = &Rewrite{K: "this"}
+				g.Restr = []Restr{{T: "user"}, {T: "group", Rel: "member", Cond: pick(r, condNames)}}
+				if chance(r, 0.5) {
+					g.Restr = append(g.Restr, Restr{T: "group", Rel: "member"})
+				}
+			}
+			if fv, fp := m.Rel("folder", "viewer"), m.Rel("folder", "parent"); fv != nil && fp != nil {
+				fv.Rw = &Rewrite{K: "union", Ch: []*Rewrite{{K: "this"}, {K: "ttu", TS: "parent", Rel: "viewer"}}}
+				fv.Restr = []Restr{{T: "user"}, {T: "group", Rel: "member"}}
+				fp.Restr = []Restr{{T: "folder"}, {T: "folder", Cond: pick(r, condNames)}}
+			}
+		}
 		if !ok || !m.Stratified() {
 			continue
 		}
@@ -354,7 +370,7 @@ func GenTuples(r *rand.Rand, m *Model, opts GenOpts) []Tuple {
 	var valid []Tuple
 	// dense cases use two ids per type so that chains, diamonds and cycles are likely
 	ids := IDs
-	if chance(r, 0.6) {
+	if !opts.ForceShapes && chance(r, 0.6) {
 		ids = map[string][]string{}
 		for t, l := range IDs {
 			ids[t] = l[:2]
@@ -401,6 +417,29 @@ func GenTuples(r *rand.Rand, m *Model, opts GenOpts) []Tuple {
 		seen[t.Key()] = true
 		out = append(out, t.Norm())
 		return true
+	}
+	if opts.ForceShapes {
+		// chains of depth three through the recursive relations, so that conditions sit two and
+		// more hops away from the checked object
+		want := []Tuple{tp("group:1", "member", "group:2#member"), tp("group:2", "member", "group:3#member"), tp("group:3", "member", "user:a"),
+			tp("folder:1", "parent", "folder:2"), tp("folder:2", "parent", "folder:3"), tp("folder:3", "viewer", "user:a"), tp("doc:1", "parent", "folder:1"),
+			tp("folder:3", "viewer", "group:1#member")}
+		for _, w := range want {
+			var cands []Tuple
+			for _, t := range valid {
+				if t.O == w.O && t.R == w.R && t.U == w.U {
+					cands = append(cands, t)
+				}
+			}
+			if len(cands) == 0 {
+				continue
+			}
+			t := pick(r, cands)
+			if t.C != "" {
+				t.Cctx = CtxFor(r, m.Cond(t.C), pick(r, []string{"T", "T", "F", "F", "none"}))
+			}
+			add(t)
+		}
 	}
 	for _, t := range valid {
 		if len(out) >= n {
